@@ -881,6 +881,24 @@ def dfis(n: size, x: f32[n, 4], y: f32[n], z: f32[n, 4]):
 dfis = fission(dfis, dfis.find("y[i] = _").after())
 """, entry="dfis", callees=("dfc",))
 
+S("dup/inline_same_iter", "dup", """
+@proc
+def dsi_row(m: size, d: [f32][m], s: [f32][m]):
+    for i in seq(0, m):
+        d[i] = s[i] + 1.0
+
+@proc
+def dsi(n: size, m: size, A: f32[n, m], B: f32[n, m]):
+    for i in seq(0, n):
+        dsi_row(m, A[i, :], B[i, :])
+
+# after inlining, one access is indexed by two DIFFERENT iterators that are both called `i`
+dsi = inline(dsi, dsi.find("dsi_row(_)"))
+dsi = inline_window(dsi, dsi.find("d = _"))
+dsi = inline_window(dsi, dsi.find("s = _"))
+dsi = simplify(dsi)
+""", entry="dsi")
+
 S("dup/cut", "dup", """
 @proc
 def dcut(n: size, x: f32[n + 3]):
